@@ -458,6 +458,29 @@ pub fn run_group(
             }
         }
     }
+    // 7. REUSE: the receiver takes the sender's object (or rejects it), then an object of its OWN original shape
+    // again (blob 2 of the set-up): capacity is a property of the buffer, not of what was read last
+    for rf in [Faults::none(), Faults { seed: mix(gseed, 7, 0), short_pm: 500, eintr_pm: 300, err_at: None, zero_at: None }] {
+        let mut h = base.clone();
+        h.ops.push(Op::Write { obj: 0, blob: 1, faults: Faults::none() });
+        h.ops.push(Op::Read { blob: 1, obj: 1, faults: rf.clone() });
+        h.ops.push(Op::Read { blob: 2, obj: 1, faults: rf.clone() });
+        h.ops.push(Op::Probe { obj: 1 });
+        h.ops.push(Op::Read { blob: 1, obj: 1, faults: rf });
+        h.ops.push(Op::Probe { obj: 1 });
+        on_case(&h);
+        let mut ex = Exec::new(&h)?;
+        let r = ex.run(&h, stats);
+        res.cases += 1;
+        res.hash = fnv_mix(res.hash, fnv(&ex.objs[1].snap_bytes) ^ if r.is_ok() { 0 } else { 0xdead });
+        if let Err(v) = r {
+            if !res.violations.iter().any(|(_, x)| x.oracle == v.oracle && x.class == v.class) {
+                res.violations.push((h, v));
+            } else {
+                stats.bump("dup_violation_cases");
+            }
+        }
+    }
     stats.add("enum.cases", res.cases);
     Ok(res)
 }
